@@ -146,7 +146,12 @@ Definition opt_value_eqb (a : option value) (b : value) : bool :=
 Definition prop_C05_request (ty : prim) (raw : option str) (required invoked null_arg : bool)
            (status : N) (got : option value) (has_rule : bool) : bool :=
   match raw with
-  | None => if required then N.eqb status 422 && negb invoked else invoked && null_arg
+  | None =>
+      if required then N.eqb status 422 && negb invoked
+      else if has_rule then (invoked && null_arg) || (N.eqb status 422 && negb invoked)
+           (* an absent optional parameter that carries a go-playground rule without `omitempty`
+              (e.g. gte=0) is validated as a nil pointer and refused: validator semantics, not modelled *)
+      else invoked && null_arg
   | Some r =>
       match convert ty r with
       | Some v => if has_rule then (if invoked then opt_value_eqb got v else N.eqb status 422)
